@@ -31,6 +31,17 @@ CLAIMED = {
         "6 C02",
         TECH,
     ),
+    "C03": (
+        "Bounded solver-based check with symbolic schedules: a controllable concurrent.futures.Executor (public executor= argument, one executor, "
+        "default-dict, different executor per output) completes the submitted tasks in an order chosen by symbolic integers (all orders of up to 4 "
+        "pending tasks, first 4 choices; 6 in the thorough tier). For MAP-T templates with several tasks / functions per generation and dict, "
+        "file_array, dict_sub and per-output storage mixes: results, stored data and load_outputs equal the denotation for ALL integer inputs, "
+        "each function is invoked exactly once per index, and no function is invoked before all values it consumes are complete.",
+        "Trusted: z3, CrossHair path exhaustion and builtin models; token pickle. Tasks interleave at task granularity only. Outside: real thread / "
+        "process pools and OS scheduling, map_async, real shared_memory_dict.",
+        "6 C03",
+        TECH,
+    ),
     "C04": (
         "Bounded solver-based check: Pipeline.map(run_folder=F, parallel=False) on MAP-T templates x storage choices (file_array, dict, dict_sub, "
         "per-output mixes with tuple keys) with persist_memory symbolic, then load_outputs for every output (single and multi-name, twice) equals "
@@ -74,6 +85,29 @@ CLAIMED = {
         "Trusted: z3, CrossHair path exhaustion and builtin models. (S, I) candidates and axis sizes are case-split. Outside: surplus provided names, "
         "> 5 functions, scopes, parallel maps.",
         "6 C11",
+        TECH,
+    ),
+    "C12": (
+        "Bounded solver-based check that ill-formed requests are rejected before any user function runs and without altering an existing run "
+        "folder: zipped inputs of symbolic lengths (rejected iff unequal), list / ndarray of symbolic rank for a 2-D MapSpec input, every subset "
+        "of supplied root arguments plus a surplus name, three symbolic defaults of a shared parameter (rejected iff they differ), registered "
+        "and unknown storage names, executor with parallel=False, missing / short internal shapes, and nine structural faults (duplicate "
+        "outputs, output named like an own parameter, cycle, inconsistent axes, MapSpec/function mismatch); valid neighbours are accepted and "
+        "give the denoted result.",
+        "Trusted: z3, CrossHair path exhaustion and builtin models; run-folder snapshots compare names, JSON content and pickled objects. Outside: "
+        "type-annotation faults (C16), scope faults.",
+        "6 C12",
+        TECH,
+    ),
+    "C13": (
+        "Bounded solver-based check of failure propagation: a user function raises in its k-th call (k symbolic, also beyond the last call) one of "
+        "three exception kinds (symbolic) during Pipeline.map (sequential and through a symbolic-order executor; dict / file_array) and during "
+        "pipeline(...): the same type and args surface, the annotation names the failing function and its keyword arguments, no function that "
+        "depends on the failing one is invoked, the call returns, the pipeline and the function expose an ErrorSnapshot whose reproduce() - also "
+        "after save_to_file/load_from_file - raises the same exception, and results completed before the failure are loadable.",
+        "Trusted: z3, CrossHair path exhaustion and builtin models; token pickle. Inputs are 0..1 because the annotation formats them. Outside: "
+        "process pools, map_async, the exact text of messages.",
+        "6 C13",
         TECH,
     ),
     "C14": (
